@@ -82,6 +82,10 @@ def ptfs_stage(prop, cases, name="native", kind="native", **kw):
     return d
 
 
+def c05_stages(tier):
+    return [ptfs_stage("C05", 2_048 if tier == "quick" else 80_000, timeout=3000, crash_is_violation=True)]
+
+
 def c06_stages(tier):
     n = 2_400 if tier == "quick" else 100_000
     return [ptfs_stage("C06", n, timeout=2400, crash_is_violation=True),
@@ -224,6 +228,27 @@ PROPS = {
         "rule": "case = one history (2-9 steps, optionally after a 10-260 cycle allocator burst); evaluations = save/restore points; distinct = (format, fresh-Vfs "
                 "kind, initialised?, global mapping?, number of mounts, step kind).",
         "assumptions": ["twin NumFs backends are deterministic functions of their id"],
+    },
+    "C05": {
+        "level": "exploration",
+        "stages": c05_stages,
+        "floor": 1000,
+        "technique": "runtime monitoring: differential execution - syscall-level operations decomposed into FUSE requests the way the Linux client does, against "
+                     "a passthrough export, vs the same system calls on a shadow directory; reply, tree and thread-credential monitors after every operation",
+        "level_text": "Two directories with identical random initial trees (files incl. setuid/setgid modes, directories with 0755/0777/0700/sticky modes, "
+                      "symlinks, FIFOs, device nodes). Each operation (lstat, open with O_CREAT/O_EXCL/O_TRUNC/O_APPEND + read/write/fsync/fallocate/lseek "
+                      "SEEK_DATA|HOLE/close, mkdir, mknod, symlink, link, unlink, rmdir, rename with NOREPLACE/EXCHANGE, chmod, chown, truncate, utimens, "
+                      "readlink, xattr set/get/list/remove, statfs, special-file handling) runs through the in-process client on the export and as the "
+                      "plain system call on the shadow; errno, attributes (type, mode, nlink, uid, gid, size, rdev, blksize), data, link targets, xattr values "
+                      "must agree and afterwards the two trees must be equal (names, types, modes, owners, sizes, content, targets, xattrs, hard-link "
+                      "partition). After every request euid/egid must be 0 and CAP_FSETID effective. The 128 combinations of no_open x no_opendir x "
+                      "inode_file_handles x use_host_ino x writeback x xattr (x 4 cache policies) are walked by case index.",
+        "level_note": "Decisions the Linux VFS takes before calling the filesystem (negative/positive dentry, type mismatches, O_EXCL, rename type rules) are taken "
+                      "client-side. Non-root callers are only used for pure creations whose ancestor directories are searchable by others (the server never "
+                      "walks paths with caller credentials; the Linux client does). Times, st_blocks, directory sizes, inode and device numbers, free-space "
+                      "counters are not compared; explicit utimens values are. No concurrent host-side modification.",
+        "rule": "evaluations = operations; distinct = (operation kind, full configuration tuple).",
+        "assumptions": ["both directories on the same ext4 file system", "runs as root with CAP_FSETID"],
     },
     "C06": {
         "level": "exploration",
